@@ -125,6 +125,23 @@ impl CanonicalRequest {
     pub open spec fn header_date(&self) -> Option<Seq<u8>> {
         if self.first_header(H_X_AMZ_DATE()) is Some { self.first_header(H_X_AMZ_DATE()) } else { self.first_header(H_DATE()) }
     }
+    /// link between the abstract first value of a header and the concrete map entry looked up with a &str key
+    pub proof fn lemma_header_lookup(&self, k: &str)
+        requires self.wf()
+        ensures
+            (self.first_header(k.spec_bytes()) is Some) == self.hd().contains_key(string_of_bytes(k.spec_bytes())),
+            self.hd().contains_key(string_of_bytes(k.spec_bytes())) ==> {
+                &&& self.hd()[string_of_bytes(k.spec_bytes())]@.len() > 0
+                &&& self.first_header(k.spec_bytes())->Some_0 == self.hd()[string_of_bytes(k.spec_bytes())]@[0]@
+            },
+    {
+        broadcast use axiom_string_of_str_bytes;
+        let sk = string_of_bytes(k.spec_bytes());
+        if self.headers@.contains_key(sk) {
+            assert(self.headers@[sk]@.len() > 0);
+            assert(self.hview()[k.spec_bytes()] == vecs_bytes(self.headers@[sk]@));
+        }
+    }
     /// what the Authorization-header carrier yields for the header value `hdr` (rules 6a-6d)
     pub open spec fn header_carrier_ok(&self, hdr: Seq<u8>, p: AuthParams) -> bool {
         let t = trim_ws(hdr);
@@ -154,7 +171,7 @@ impl CanonicalRequest {
     }
 
 //@ fn canonical.rs impl CanonicalRequest :: get_auth_parameters_from_auth_header
-//@ props C08 C19 C13 C02
+//@ props C08 C19 C13 C02 C17
 //@ ret r
 //   (the parameter `auth_header` is shadowed by its trimmed version; renamed so that loop invariants can still name the parameter)
 //@ replace 1 `let auth_header = trim_ascii(auth_header);` => `let auth_header_t = trim_ascii(auth_header);`
@@ -177,8 +194,11 @@ impl CanonicalRequest {
         self.header_carrier_fails(auth_header@) ==> r is Err && r->Err_0 is IncompleteSignature, //# C13 C19 name=rules_6a_6b_6d_incomplete_signature
         !self.header_carrier_fails(auth_header@) ==> r is Ok && self.header_carrier_ok(auth_header@, r->Ok_0), //# C19 C02 C13 name=last_parameter_first_date_first_token
 //@ bodystart
+    hide(bmap);
+    hide(hmap);
+    hide(qmap);
     broadcast use axiom_contains_str_key, axiom_maps_str_key_to_value, axiom_string_of_str_bytes, axiom_string_key_model;
-    proof { lemma_params_literals(); }
+    proof { lemma_params_literals(); self.lemma_header_lookup(X_AMZ_DATE_LOWER); self.lemma_header_lookup(DATE); self.lemma_header_lookup(X_AMZ_SECURITY_TOKEN_LOWER); }
 //@ before 1 `let mut parameter_map = HashMap::new();`
     let ghost t = trim_ws(auth_header@);
     let ghost pieces = split(parameters@, 0x2c);
@@ -187,7 +207,7 @@ impl CanonicalRequest {
         assert(parameters@ == (if first_index(t, 0x20, 0) < t.len() { split_first(t, 0x20).1 } else { Seq::<u8>::empty() }));
     }
 //@ before 1 `for parameter_untrimmed in parameters.split(|c| *c == b',')`
-    proof { assert(bmap(parameter_map@) =~= BMap::empty()); }
+    proof { reveal(bmap); assert(bmap(parameter_map@) =~= BMap::empty()); }
 //@ loop 1
         invariant
             pieces == split(parameters@, 0x2c),
@@ -207,9 +227,6 @@ impl CanonicalRequest {
     let ghost m = bmap(parameter_map@);
     proof {
         assert(auth_header_params(pieces, pieces.len() as int) == Some(m));
-        assert(self.hview().contains_key(H_X_AMZ_DATE()) == self.headers@.contains_key(string_of_bytes(H_X_AMZ_DATE())));
-        assert(self.hview().contains_key(H_DATE()) == self.headers@.contains_key(string_of_bytes(H_DATE())));
-        assert(self.hview().contains_key(H_X_AMZ_SECURITY_TOKEN()) == self.headers@.contains_key(string_of_bytes(H_X_AMZ_SECURITY_TOKEN())));
     }
 //@ before 1 `signed_headers.sort();`
     proof {
@@ -270,7 +287,7 @@ impl CanonicalRequest {
     }
 
 //@ fn canonical.rs impl CanonicalRequest :: get_auth_parameters_from_query_parameters
-//@ props C08 C19 C13 C02
+//@ props C08 C19 C13 C02 C17
 //@ ret r
 //@ replace 1 `unescaped_signed_headers.split(';').map(|s| s.to_string()).collect::<Vec<String>>()` => `string_split_to_strings(&unescaped_signed_headers, ';')`
 //@ replace 1 `signed_headers.sort();` => `sort_strings(&mut signed_headers);`
@@ -337,7 +354,7 @@ impl CanonicalRequest {
     }
 
 //@ fn canonical.rs impl CanonicalRequest :: get_auth_parameters
-//@ props C08 C05 C19 C13
+//@ props C08 C05 C19 C13 C17
 //@ ret r
 //@ replace 1 `header == "host" || header == ":authority"` => `string_eq_str(header, "host") || string_eq_str(header, ":authority")`
 //@ replace 1 `header.to_lowercase()` => `cow_to_lowercase(header)`
@@ -444,7 +461,7 @@ impl CanonicalRequest {
 //@ end
 
 //@ fn canonical.rs impl CanonicalRequest :: get_authenticator_from_auth_parameters
-//@ props C08 C01 C13 C16 C04
+//@ props C08 C01 C13 C16 C04 C17
 //@ ret r
 //   (Verus rejects `_` as a closure parameter)
 //@ replace 1 `.map_err(|_| {` => `.map_err(|_e| -> (e2: SignatureError) ensures e2 is IncompleteSignature {`
@@ -483,7 +500,7 @@ impl CanonicalRequest {
     }
 
 //@ fn canonical.rs impl CanonicalRequest :: get_authenticator
-//@ props C08 C01 C05 C13 C16 C19
+//@ props C08 C01 C05 C13 C16 C19 C17
 //@ ret r
 //@ spec
     requires
